@@ -17,6 +17,21 @@ P = {
         note="Solver totality on non-empty data is an oracle assumption; Python round(x,2) modelled as round-half-even of the exact value.",
         tech="Coq proof over Q (nra/lra) + generated-formula equivalence lemmas + exhaustive grid correspondence + end-to-end gate runs",
         ref="DESIGN.md section 5 C14"),
+    "C01": dict(
+        text="Unbounded theorems about the executable model of the two outer joins (any rows, any aggregate list, any key): counted votes / reporting count of every group = sum over exactly its attributable units, group set = groups of attributable units, each once, column total = total of attributable keyed units. Correspondence: every aggregate frame and the unit id set of generated elections, all three estimators, compared inside Coq; statement re-evaluated on the output to produce replays.",
+        note="Unit categories are taken from the implementation's unit table (C09 decides them); pandas groupby/merge/sort semantics as modelled in Base/Frame.v.",
+        tech="Coq proof by induction over the unit rows (group-by/outer-join library) + differential correspondence against get_estimates",
+        ref="DESIGN.md section 5 C01"),
+    "C02": dict(
+        text="Theorems: prediction = counted + sum of nonreporting predictions; the same for both bounds (nonparametric); coarse level = sum of the finer level's rows (levels agree) under explicit well-keyedness; interval columns share the key column of the prediction frame; bootstrap vectors assigned by position are aligned once contest order = frame order (pre-repair order refuted by a witness). Correspondence on all three estimators incl. prefix district ids.",
+        note="Unit-level numbers come from the implementation's unit table; bootstrap float sums compared at 1e-9/1e-6 relative.",
+        tech="Coq proof (sum partition lemma, positional-assignment lemma) + differential correspondence",
+        ref="DESIGN.md section 5 C02"),
+    "C03": dict(
+        text="Theorems for every rational regression output and correction: rounded unit value >= counted votes; reported/unexpected/non-modelled units final; aggregate floors (nonparametric) and for every (lb, ub) the gaussian vote-space step; zero-width rows. Correspondence with captured raw predictions and with a stub solver returning adversarial dyadic values.",
+        note="Raw solver outputs and gaussian (lb, ub) are oracle inputs; tie guard of 1e-6 around .5.",
+        tech="Coq proof over Q (round-half-even lemmas) + capture/stub-solver correspondence",
+        ref="DESIGN.md section 5 C03"),
 }
 
 REASON_NOT_BUILT = "check not built yet in this development stage (planned: see DESIGN.md section 5)"
